@@ -99,8 +99,11 @@ Proof.
     cbn [convert]. apply milli_nz. cbn [zero_milli] in H. unfold sval. destruct neg; lia.
 Qed.
 
+Lemma backfill_now hi cr : backfill false hi cr = spec_fill hi cr.
+Proof. destruct hi, cr; reflexivity. Qed.
+
 Lemma backfill_spec hi cr :
-  hi = None \/ truthy hi = true -> cr = None \/ truthy cr = true -> backfill hi cr = spec_fill hi cr.
+  hi = None \/ truthy hi = true -> cr = None \/ truthy cr = true -> backfill true hi cr = spec_fill hi cr.
 Proof.
   unfold backfill. intros [-> | Hh] [-> | Hc]; cbn [truthy andb negb spec_fill].
   - reflexivity.
@@ -109,18 +112,18 @@ Proof.
   - rewrite Hh, Hc. cbn. destruct hi, cr; try discriminate; reflexivity.
 Qed.
 
-Lemma front_raw fahr label cur hi cr :
-  fahr = true \/ (zero_milli hi = false /\ zero_milli cr = false) ->
-  option_map (front_reading fahr) (raw_reading label cur (spec_milli hi) (spec_milli cr))
+Lemma front_raw legacy fahr label cur hi cr :
+  legacy = false \/ fahr = true \/ (zero_milli hi = false /\ zero_milli cr = false) ->
+  option_map (front_reading legacy fahr) (raw_reading label cur (spec_milli hi) (spec_milli cr))
   = spec_reading fahr label cur (spec_milli hi) (spec_milli cr).
 Proof.
   intros H. unfold raw_reading, spec_reading. destruct (spec_milli cur) as [c|]; [|reflexivity].
   cbn [option_map]. unfold front_reading. cbn [tr_label tr_cur tr_high tr_crit].
-  rewrite backfill_spec.
-  - change (convert fahr) with (spec_unit fahr).
-    destruct (spec_fill _ _). reflexivity.
-  - apply thr_truthy. tauto.
-  - apply thr_truthy. tauto.
+  assert (B : backfill legacy (option_map (convert fahr) (spec_milli hi)) (option_map (convert fahr) (spec_milli cr))
+              = spec_fill (option_map (convert fahr) (spec_milli hi)) (option_map (convert fahr) (spec_milli cr))).
+  { destruct legacy; [|apply backfill_now]. destruct H as [H|H]; [discriminate|].
+    apply backfill_spec; apply thr_truthy; tauto. }
+  rewrite B. change (convert fahr) with (spec_unit fahr). destruct (spec_fill _ _). reflexivity.
 Qed.
 
 Lemma map_name_is {A B} (f : A -> B) n name l : map f (name_is n name l) = name_is n name (map f l).
@@ -129,33 +132,33 @@ Proof. unfold name_is. destruct name as [m| |]; auto. destruct (beqb n m); auto.
 Lemma map_somes {A B} (f : A -> B) (l : list (option A)) : map f (somes l) = somes (map (option_map f) l).
 Proof. induction l as [|[x|] l IH]; cbn [somes map option_map]; auto. now rewrite IH. Qed.
 
-Lemma nozero_sensor fahr s :
-  fahr = true \/ (negb (zero_milli (ks_max s)) && negb (zero_milli (ks_crit s))) = true ->
-  option_map (front_reading fahr) (raw_sensor s) = spec_sensor fahr s.
+Lemma nozero_sensor legacy fahr s :
+  legacy = false \/ fahr = true \/ (negb (zero_milli (ks_max s)) && negb (zero_milli (ks_crit s))) = true ->
+  option_map (front_reading legacy fahr) (raw_sensor s) = spec_sensor fahr s.
 Proof.
   intros H. unfold raw_sensor, spec_sensor. apply front_raw.
-  destruct H as [H|H]; [now left|right].
+  destruct H as [H|[H|H]]; [now left|right; now left|right; right].
   apply andb_true_iff in H as [H1 H2]. now apply negb_true_iff in H1, H2.
 Qed.
 
-Lemma front_stream fahr n chips : fahr = true \/ no_zero_threshold chips = true ->
-  map (front_reading fahr)
+Lemma front_stream legacy fahr n chips : legacy = false \/ fahr = true \/ no_zero_threshold chips = true ->
+  map (front_reading legacy fahr)
       (flat_map (fun c => name_is n (kc_name c) (somes (map raw_sensor (kc_sensors c)))) chips)
   = spec_temps_of fahr n chips.
 Proof.
   intros H. induction chips as [|c chips IH]; [reflexivity|].
   cbn [flat_map]. rewrite map_app. unfold spec_temps_of. cbn [flat_map]. fold (spec_temps_of fahr n chips).
   rewrite IH.
-  2:{ destruct H as [H|H]; [now left|right]. unfold no_zero_threshold in *. cbn [forallb] in H.
+  2:{ destruct H as [H|[H|H]]; [now left|right; now left|right; right]. unfold no_zero_threshold in *. cbn [forallb] in H.
       now apply andb_true_iff in H as [_ H]. }
   f_equal. rewrite map_name_is, map_somes, map_map. f_equal. f_equal.
-  assert (G : fahr = true \/ forallb (fun s => negb (zero_milli (ks_max s)) && negb (zero_milli (ks_crit s))) (kc_sensors c) = true).
-  { destruct H as [H|H]; [now left|right]. unfold no_zero_threshold in H. cbn [forallb] in H.
+  assert (G : legacy = false \/ fahr = true \/ forallb (fun s => negb (zero_milli (ks_max s)) && negb (zero_milli (ks_crit s))) (kc_sensors c) = true).
+  { destruct H as [H|[H|H]]; [now left|right; now left|right; right]. unfold no_zero_threshold in H. cbn [forallb] in H.
     now apply andb_true_iff in H as [H _]. }
   clear -G. induction (kc_sensors c) as [|s ss IHs]; [reflexivity|]. cbn [map]. f_equal.
-  - apply nozero_sensor. destruct G as [G|G]; [now left|right]. cbn [forallb] in G.
+  - apply nozero_sensor. destruct G as [G|[G|G]]; [now left|right; now left|right; right]. cbn [forallb] in G.
     now apply andb_true_iff in G as [G _].
-  - apply IHs. destruct G as [G|G]; [now left|right]. cbn [forallb] in G.
+  - apply IHs. destruct G as [G|[G|G]]; [now left|right; now left|right; right]. cbn [forallb] in G.
     now apply andb_true_iff in G as [_ G].
 Qed.
 
@@ -166,33 +169,40 @@ Proof. destruct l; reflexivity. Qed.
 
 (* every hwmon layout: the call returns a value (never fails), whatever files are
    present, absent, unreadable or non-numeric *)
-Theorem temps_total chips zones fahr :
+Theorem temps_total legacy chips zones fahr :
   forallb kchip_ok chips = true -> hwmon_entries chips <> [] ->
-  exists d, sensors_temperatures (hwmon_entries chips) zones fahr = Val d /\
+  exists d, sensors_temperatures_at legacy (hwmon_entries chips) zones fahr = Val d /\
     forall n, dict_get n d =
       match flat_map (fun c => name_is n (kc_name c) (somes (map raw_sensor (kc_sensors c)))) chips with
       | [] => None
-      | l => Some (map (front_reading fahr) l)
+      | l => Some (map (front_reading legacy fahr) l)
       end.
 Proof.
-  intros Hok Hne. unfold sensors_temperatures, temps_platform.
+  intros Hok Hne. unfold sensors_temperatures_at, temps_platform.
   destruct (hwmon_entries chips) as [|e es] eqn:E; [congruence|]. rewrite <- E.
   rewrite chips_loop by exact Hok. cbn [obind]. eexists. split; [reflexivity|].
-  intros n. rewrite (dict_get_map (map (front_reading fahr))).
+  intros n. rewrite (dict_get_map (map (front_reading legacy fahr))).
   rewrite dict_get_fold_nil, sel_stream.
   destruct (flat_map _ chips); reflexivity.
 Qed.
 
-Theorem temps_values chips zones fahr :
+Theorem temps_values_at legacy chips zones fahr :
   forallb kchip_ok chips = true -> hwmon_entries chips <> [] ->
-  fahr = true \/ no_zero_threshold chips = true ->
-  exists d, sensors_temperatures (hwmon_entries chips) zones fahr = Val d /\
+  legacy = false \/ fahr = true \/ no_zero_threshold chips = true ->
+  exists d, sensors_temperatures_at legacy (hwmon_entries chips) zones fahr = Val d /\
     forall n, dict_get n d = match spec_temps_of fahr n chips with [] => None | l => Some l end.
 Proof.
-  intros Hok Hne Hz. destruct (temps_total chips zones fahr Hok Hne) as [d [Hd Hg]].
-  exists d. split; [exact Hd|]. intros n. rewrite Hg, <- (front_stream fahr n chips Hz).
+  intros Hok Hne Hz. destruct (temps_total legacy chips zones fahr Hok Hne) as [d [Hd Hg]].
+  exists d. split; [exact Hd|]. intros n. rewrite Hg, <- (front_stream legacy fahr n chips Hz).
   destruct (flat_map _ chips); reflexivity.
 Qed.
+
+(* the code as it is: every layout, no exclusion *)
+Theorem temps_values chips zones fahr :
+  forallb kchip_ok chips = true -> hwmon_entries chips <> [] ->
+  exists d, sensors_temperatures (hwmon_entries chips) zones fahr = Val d /\
+    forall n, dict_get n d = match spec_temps_of fahr n chips with [] => None | l => Some l end.
+Proof. intros Hok Hne. apply temps_values_at; auto. Qed.
 
 (* present-but-zero threshold: treated as missing by the back-fill *)
 Definition zero_witness : list kchip :=
@@ -201,7 +211,7 @@ Definition zero_witness : list kchip :=
                         ks_crit := Present (KN false (bs "100000")); ks_label := Absent; ks_other := false |}] |}].
 Theorem temps_zero_refuted :
   exists chips d r, forallb kchip_ok chips = true /\ hwmon_entries chips <> [] /\
-    sensors_temperatures (hwmon_entries chips) [] false = Val d /\
+    sensors_temperatures_at true (hwmon_entries chips) [] false = Val d /\
     dict_get (bs "acpitz") d = Some [r] /\ tr_high r = Some (100000 / 1000)%Q /\
     exists r', spec_temps_of false (bs "acpitz") chips = [r'] /\ tr_high r' = Some (0 / 1000)%Q.
 Proof.
@@ -305,44 +315,34 @@ Proof.
   unfold spec_trip. destruct (find _ (rev trips)) as [t|]; [|now left]. apply thr_truthy. now left.
 Qed.
 
-Lemma front_zone fahr z :
-  fahr = true \/ forallb (fun t => negb (zero_milli (kt_temp t))) (kz_trips z) = true ->
-  option_map (front_reading fahr) (raw_zone z) = spec_zone fahr z.
+Lemma front_zone fahr z : option_map (front_reading false fahr) (raw_zone z) = spec_zone fahr z.
 Proof.
-  intros H. unfold raw_zone, spec_zone, raw_reading, spec_reading.
+  unfold raw_zone, spec_zone, raw_reading, spec_reading.
   destruct (spec_milli (kz_temp z)) as [c|]; [|reflexivity].
   cbn [option_map]. unfold front_reading. cbn [tr_label tr_cur tr_high tr_crit].
-  rewrite backfill_spec.
-  - change (convert fahr) with (spec_unit fahr). destruct (spec_fill _ _). reflexivity.
-  - destruct H as [-> | H]; [apply spec_trip_fahr|now apply spec_trip_nz].
-  - destruct H as [-> | H]; [apply spec_trip_fahr|now apply spec_trip_nz].
+  rewrite backfill_now. change (convert fahr) with (spec_unit fahr). destruct (spec_fill _ _). reflexivity.
 Qed.
 
-Lemma front_zones fahr n zs : fahr = true \/ no_zero_trip zs = true ->
-  map (front_reading fahr) (flat_map (fun z => name_is n (kz_type z) (somes [raw_zone z])) zs)
+Lemma front_zones fahr n zs :
+  map (front_reading false fahr) (flat_map (fun z => name_is n (kz_type z) (somes [raw_zone z])) zs)
   = spec_zones_of fahr n zs.
 Proof.
-  intros H. induction zs as [|z zs IH]; [reflexivity|].
+  induction zs as [|z zs IH]; [reflexivity|].
   cbn [flat_map]. rewrite map_app. unfold spec_zones_of. cbn [flat_map]. fold (spec_zones_of fahr n zs).
-  rewrite IH.
-  2:{ destruct H as [H|H]; [now left|right]. unfold no_zero_trip in *. cbn [forallb] in H.
-      now apply andb_true_iff in H as [_ H]. }
-  f_equal. rewrite map_name_is, map_somes. cbn [map]. rewrite front_zone; [reflexivity|].
-  destruct H as [H|H]; [now left|right]. unfold no_zero_trip in H. cbn [forallb] in H.
-  now apply andb_true_iff in H as [H _].
+  rewrite IH. f_equal. rewrite map_name_is, map_somes. cbn [map]. now rewrite front_zone.
 Qed.
 
 (* thermal-zone fallback (no hwmon temperature file): critical/high come from the trip
    points, each scaled exactly once, for every iteration order of the trip points *)
 Theorem zones_values zs fahr :
-  forallb kzone_ok zs = true -> fahr = true \/ no_zero_trip zs = true ->
+  forallb kzone_ok zs = true ->
   exists d, sensors_temperatures [] (map zone_entry zs) fahr = Val d /\
     forall n, dict_get n d = match spec_zones_of fahr n zs with [] => None | l => Some l end.
 Proof.
-  intros Hok Hz. unfold sensors_temperatures, temps_platform.
+  intros Hok. unfold sensors_temperatures, sensors_temperatures_at, temps_platform.
   rewrite zones_loop_spec by exact Hok. cbn [obind]. eexists. split; [reflexivity|].
-  intros n. rewrite (dict_get_map (map (front_reading fahr))).
-  rewrite dict_get_fold_nil, sel_zones, <- (front_zones fahr n zs Hz).
+  intros n. rewrite (dict_get_map (map (front_reading false fahr))).
+  rewrite dict_get_fold_nil, sel_zones, <- (front_zones fahr n zs).
   destruct (flat_map _ zs); reflexivity.
 Qed.
 
